@@ -175,10 +175,11 @@ func randomBuild(pattern string, build func(string) (Cgroup, error)) (Cgroup, er
 	for {
 		name := prefix + nextRandom() + suffix
 		cg, err := build(name)
-		if err == nil {
+		// a random group must be a new one: retry if the name is taken
+		if err == nil && !cg.Existing() {
 			return cg, nil
 		}
-		if errors.Is(err, os.ErrExist) || (cg != nil && cg.Existing()) {
+		if err == nil || errors.Is(err, os.ErrExist) || (cg != nil && cg.Existing()) {
 			if try++; try < 10000 {
 				continue
 			}
